@@ -720,6 +720,8 @@ std::string sqf::parser::preprocessor::impl_default::instance::handle_macro(::sq
 
 std::string sqf::parser::preprocessor::impl_default::instance::parse_ppinstruction(::sqf::runtime::runtime& runtime, preprocessorfileinfo& fileinfo)
 {
+    // the diagnostics of a directive name the line the directive stands on (reading its text moves on to the next line)
+    const auto directive_position = fileinfo.to_diag_info();
     auto inst = fileinfo.get_word();
     std::string line{ trim(fileinfo.get_line(true)) };
     std::transform(inst.begin(), inst.end(), inst.begin(), [](char& c) { return (char)std::toupper((int)c); });
@@ -737,7 +739,7 @@ std::string sqf::parser::preprocessor::impl_default::instance::parse_ppinstructi
             return c == '"';
         });
         if (std::distance(endIter, line.end()) > 1)
-            log(err::UnexpectedDataAfterInclude(fileinfo.to_diag_info()));
+            log(err::UnexpectedDataAfterInclude(directive_position));
         line.erase(endIter, line.end());
         try
         {
@@ -745,7 +747,7 @@ std::string sqf::parser::preprocessor::impl_default::instance::parse_ppinstructi
             if (!include_path_info.has_value())
             {
                 m_errflag = true;
-                log(err::IncludeFailed(fileinfo.to_diag_info(), line, "FileIO returned no file."));
+                log(err::IncludeFailed(directive_position, line, "FileIO returned no file."));
                 return "";
             }
             const auto& physical = include_path_info->physical;
@@ -759,7 +761,7 @@ std::string sqf::parser::preprocessor::impl_default::instance::parse_ppinstructi
                 {
                     includeTree << i << ". " << m_file_scopes[i].path.physical << " [" << m_file_scopes[i].path.virtual_ << "]\n";
                 }
-                log(err::RecursiveInclude(fileinfo.to_diag_info(), includeTree.str()));
+                log(err::RecursiveInclude(directive_position, includeTree.str()));
                 return "";
             }
             preprocessorfileinfo otherfinfo(*include_path_info);
@@ -782,7 +784,7 @@ std::string sqf::parser::preprocessor::impl_default::instance::parse_ppinstructi
         catch (const std::runtime_error& ex)
         {
             m_errflag = true;
-            log(err::IncludeFailed(fileinfo.to_diag_info(), line, ex));
+            log(err::IncludeFailed(directive_position, line, ex));
             return "";
         }
     }
@@ -810,7 +812,7 @@ std::string sqf::parser::preprocessor::impl_default::instance::parse_ppinstructi
         { // Empty define
             if (try_get_macro(line).has_value())
             {
-                log(err::MacroDefinedTwice(fileinfo.to_diag_info(), line));
+                log(err::MacroDefinedTwice(directive_position, line));
             }
             m_macros[line] = { fileinfo, line };
 #ifdef DF__SQF_PREPROC__TRACE_MACRO_PARSE
@@ -827,7 +829,7 @@ std::string sqf::parser::preprocessor::impl_default::instance::parse_ppinstructi
                 auto name_tmp = line.substr(0, spaceIndex);
                 if (try_get_macro(name_tmp).has_value())
                 {
-                    log(err::MacroDefinedTwice(fileinfo.to_diag_info(), name_tmp));
+                    log(err::MacroDefinedTwice(directive_position, name_tmp));
                 }
                 std::string content(trim(line.substr(line[spaceIndex] == ' ' ? spaceIndex + 1 : spaceIndex))); // Special magic for '#define macro\'
                 m_macros[name_tmp] = { fileinfo, name_tmp, content };
@@ -843,7 +845,7 @@ std::string sqf::parser::preprocessor::impl_default::instance::parse_ppinstructi
                 auto name_tmp = line.substr(0, bracketsIndex);
                 if (try_get_macro(name_tmp).has_value())
                 {
-                    log(err::MacroDefinedTwice(fileinfo.to_diag_info(), name_tmp));
+                    log(err::MacroDefinedTwice(directive_position, name_tmp));
                 }
                 auto bracketsEndIndex = line.find(')');
                 auto argumentsString = line.substr(bracketsIndex + 1, bracketsEndIndex);
@@ -870,7 +872,7 @@ std::string sqf::parser::preprocessor::impl_default::instance::parse_ppinstructi
                         }
                         else if (!ended)
                         { // A parameter without a name: nothing can refer to it
-                            log(err::EmptyArgument(fileinfo.to_diag_info()));
+                            log(err::EmptyArgument(directive_position));
                         }
                         arg_start_index = arg_index + 1;
                     }
@@ -904,7 +906,7 @@ std::string sqf::parser::preprocessor::impl_default::instance::parse_ppinstructi
         auto res = m_macros.find(static_cast<std::string>(line));
         if (res == m_macros.end())
         {
-            log(err::MacroNotFound(fileinfo.to_diag_info(), line));
+            log(err::MacroNotFound(directive_position, line));
         }
         else
         {
@@ -916,7 +918,7 @@ std::string sqf::parser::preprocessor::impl_default::instance::parse_ppinstructi
     { // #ifdef TEST
         if (!current_file_scope().conditions.empty())
         {
-            log(err::UnexpectedIfdef(fileinfo.to_diag_info()));
+            log(err::UnexpectedIfdef(directive_position));
         }
         auto res = m_macros.find(static_cast<std::string>(line));
         // A conditional inside an inactive section stays inactive whatever its condition
@@ -927,7 +929,7 @@ std::string sqf::parser::preprocessor::impl_default::instance::parse_ppinstructi
     { // #ifndef TEST
         if (!current_file_scope().conditions.empty())
         {
-            log(err::UnexpectedIfndef(fileinfo.to_diag_info()));
+            log(err::UnexpectedIfndef(directive_position));
         }
         auto res = m_macros.find(static_cast<std::string>(line));
         // A conditional inside an inactive section stays inactive whatever its condition
@@ -939,7 +941,7 @@ std::string sqf::parser::preprocessor::impl_default::instance::parse_ppinstructi
         if (current_file_scope().conditions.empty())
         {
             m_errflag = true;
-            log(err::UnexpectedElse(fileinfo.to_diag_info()));
+            log(err::UnexpectedElse(directive_position));
             return "";
         }
         auto& conditions = current_file_scope().conditions;
@@ -953,7 +955,7 @@ std::string sqf::parser::preprocessor::impl_default::instance::parse_ppinstructi
         if (current_file_scope().conditions.empty())
         {
             m_errflag = true;
-            log(err::UnexpectedEndif(fileinfo.to_diag_info()));
+            log(err::UnexpectedEndif(directive_position));
             return "";
         }
         current_file_scope().conditions.pop_back();
@@ -989,11 +991,11 @@ std::string sqf::parser::preprocessor::impl_default::instance::parse_ppinstructi
                     "        " <<
                     "    " << "\x1B[36m" << line << "\033[0m PRAGMA " << line << std::endl;
 #endif // DF__SQF_PREPROC__TRACE_MACRO_PARSE
-                p.value()(runtime, fileinfo.to_diag_info(), fileinfo.to_pathinfo(), {});
+                p.value()(runtime, directive_position, fileinfo.to_pathinfo(), {});
             }
             else
             {
-                log(err::UnknownPragma(fileinfo.to_diag_info(), line));
+                log(err::UnknownPragma(directive_position, line));
             }
 
         }
@@ -1010,11 +1012,11 @@ std::string sqf::parser::preprocessor::impl_default::instance::parse_ppinstructi
                     "        " <<
                     "    " << "\x1B[36m" << line << "\033[0m PRAGMA " << line << std::endl;
 #endif // DF__SQF_PREPROC__TRACE_MACRO_PARSE
-                p.value()(runtime, fileinfo.to_diag_info(), fileinfo.to_pathinfo(), {});
+                p.value()(runtime, directive_position, fileinfo.to_pathinfo(), {});
             }
             else
             {
-                log(err::UnknownPragma(fileinfo.to_diag_info(), name_tmp));
+                log(err::UnknownPragma(directive_position, name_tmp));
             }
         }
         return "\n";
@@ -1026,7 +1028,7 @@ std::string sqf::parser::preprocessor::impl_default::instance::parse_ppinstructi
             return "\n";
         }
         m_errflag = true;
-        log(err::UnknownInstruction(fileinfo.to_diag_info(), inst));
+        log(err::UnknownInstruction(directive_position, inst));
         return "";
     }
 }
